@@ -23,6 +23,8 @@ def enrich(rng, d):
         # the same kind of fuel from another origin (bio-diesel next to fossil diesel, e-methanol, bio-LNG)
         if e.get("fuel", "DIESEL") in ("DIESEL", "NATURAL_GAS", "METHANOL") and rng.random() < 0.35:
             e["origin"] = rng.choice(["BIO", "RENEWABLE_NON_BIO"])
+        if cls in ("genset", "genset_rect") and rng.random() < 0.3:
+            d["gen_speed"] = rng.choice([0, 150, 1800])       # generator speed unlike the engine's (other side of 200 rpm included)
         if rng.random() < 0.4:
             em = {}
             for sp in rng.sample(["CO", "PM", "HC", "CH4", "SOX"], rng.randint(1, 2)):
